@@ -238,11 +238,26 @@ func cmdCheck(id, tier string, writeBaseline, verbose bool) int {
 	os.RemoveAll(outDir)
 	os.MkdirAll(outDir, 0o755)
 	cr := &checkResult{spec: spec}
-	timeout := 10
+	// wall-clock budgets per obligation; claimed obligations normally discharge in well under a second, the margin only
+	// protects against a loaded machine (a timeout of a baseline obligation would be reported as a violation)
+	timeout := 30
 	confirm := false
 	if tier == "thorough" {
-		timeout = 60
+		timeout = 120
 		confirm = true
+	}
+	if v := os.Getenv("GOVC_TIMEOUT"); v != "" {
+		if n, err := strconv.Atoi(v); err == nil && n > 0 {
+			timeout = n
+		}
+	}
+	for _, kf := range loadKnownFindings() {
+		if kf.prop == id {
+			gShortTimeout[kf.obligation] = true
+		}
+	}
+	for _, u := range spec.Unclaimed {
+		gShortTimeout[u] = true
 	}
 	var eng *Engine
 	if len(spec.Functions) > 0 || len(spec.Lemmas) > 0 {
@@ -337,7 +352,14 @@ func report(cr *checkResult, id, tier string, seed int, outDir string, writeBase
 			if o.Status != "sat" {
 				// unknown on a probe is tolerated (quantifiers); unsat is a vacuity error
 				if o.Status == "unsat" {
-					probesBad = append(probesBad, o)
+					if o.Kind == "cover" {
+						// an unreachable return (e.g. the `if check.IfNil(receiver)` guard under the implicit
+						// non-nil receiver precondition) is reported, not an error; a contradictory
+						// precondition is caught by pre-sat
+						fmt.Printf("NOTE: return never reached under the contract's precondition: %s\n", o.Name)
+					} else {
+						probesBad = append(probesBad, o)
+					}
 				}
 			}
 			continue
